@@ -323,7 +323,7 @@ def k4_order_labels(ctx):
     from vf.props.c09 import FakeZipInfo, FakeTarMember
     fmt = ctx.params["fmt"]
     n = ctx.choice("n_members", 4)
-    names_voc = ["a.txt", "d/b.csv", "c.md", "e/f/g.txt"]
+    names_voc = ["a.txt", "d/b.csv", "c.md", "e/f/g.txt", "/srv/abs.txt"]   # the last one: stored under an absolute name
     members, kinds = [], []
     for i in range(n):
         nm = names_voc[ctx.choice(f"name{i}", len(names_voc))]
